@@ -21,9 +21,9 @@ import traceback
 
 VERIF_DIR = os.path.dirname(os.path.dirname(os.path.abspath(__file__)))
 REPO_DIR = os.environ.get("VERIF_REPO", "/repo")
-EVIDENCE_DIR = os.path.join(VERIF_DIR, "evidence")
+EVIDENCE_DIR = os.environ.get("VERIF_EVIDENCE_DIR") or os.path.join(VERIF_DIR, "evidence")
 REPLAY_DIR = os.path.join(VERIF_DIR, "replays")
-OUT_DIR = os.path.join(VERIF_DIR, "out")
+OUT_DIR = os.environ.get("VERIF_OUT_DIR") or os.path.join(VERIF_DIR, "out")
 KNOWN_FINDINGS_FILE = os.path.join(VERIF_DIR, "known_findings.json")
 
 
